@@ -224,6 +224,8 @@ def run(P, R, L):
     K.grd20_create_only_when_missing(P, R, L)
     R.clause("GRD-21", "a failed manifest write removes only a manifest created by that very call, never the live one CURRENT names")
     K.grd21_manifest_cleanup(P, R, L)
+    R.clause("VERD-1", "a table read error ends Version::get with that error (it is reported, not replaced by an older value)")
+    K.verd1(P, R, L, what=("version",))
     R.not_decided += ["that a write which returned Err is all-or-nothing after reopen (runtime content)",
                       "errors swallowed inside dependencies (std, integer_encoding, snap)"]
     R.assumptions += ["`?` lowers to Try::branch + FromResidual::from_residual into the return place",
